@@ -91,7 +91,17 @@ def origins(fn, operand_or_local, depth=0, seen=None):
                 for desc, p in origins(fn, src, depth + 1, seen):
                     out.add((desc, p + path))
             elif "agg" in rv:
-                out.add((("agg", bb, si), path))
+                # a field read off a tuple (or positional) aggregate: continue with the operand that was put there
+                a = rv["agg"]
+                descended = False
+                if path and isinstance(path[0], str) and path[0].isdigit() and (a == "tuple" or (isinstance(a, dict) and "closure" not in a)):
+                    idx = int(path[0])
+                    if a == "tuple" and idx < len(rv["ops"]):
+                        for desc, p in origins(fn, rv["ops"][idx], depth + 1, seen):
+                            out.add((desc, p + path[1:]))
+                        descended = True
+                if not descended:
+                    out.add((("agg", bb, si), path))
             elif "discr" in rv:
                 out.add((("discr", bb, si), path))
             else:
